@@ -18,6 +18,7 @@ use serde_json::json;
 use std::collections::BTreeMap;
 
 pub struct C17;
+const HUGE_SET: u32 = 50;
 
 #[derive(Clone, Debug, Serialize, Deserialize)]
 pub struct Case {
@@ -65,12 +66,20 @@ impl Property for C17 {
             (Tier::Thorough, true) => 500,
         };
         // strata: randomizer modes; 3 = seed chosen by the coordinator with an arbitrary length (0, 1, 15, 16, 31, 33, 64, 300 bytes)
-        (0..4).map(|s| (s, if s == 3 { per / 2 } else { per })).collect()
+        let mut v: Vec<(u32, u32)> = (0..4).map(|s| (s, if s == 3 { per / 2 } else { per })).collect();
+        // the randomizer depends on the EXACT commitment set also when the set is huge (65536 + k entries)
+        v.push((HUGE_SET, 1));
+        v
     }
     fn chunk(&self, suite: SuiteId) -> u32 {
         if suite.slow() { 2 } else { 8 }
     }
     fn strategy(&self, suite: SuiteId, tier: Tier, stratum: u32) -> BoxedStrategy<Case> {
+        if stratum == HUGE_SET {
+            return (msg_short_strategy(), any::<u64>())
+                .prop_map(|(msg, seed)| Case { shape: Shape { n: 3, t: 2 }, ids: IdSpec { style: IdStyle::Default, seed: 0 }, source: KeySource::Dealer, subset: SubsetSpec { class: SubsetClass::Prefix, extra: 0, seed: 0 }, msg, mode: 200, seed })
+                .boxed();
+        }
         let mode = stratum as u8;
         let nmax = match (tier, suite.slow()) {
             (Tier::Quick, false) => 8,
@@ -94,6 +103,7 @@ impl Property for C17 {
             ("mode:zero".into(), m),
             ("mode:chosen-seed".into(), m / 2),
             ("seed-length:0".into(), 3),
+            ("huge-commitment-set".into(), 4),
             ("tamper:seed-bitflip".into(), m),
             ("tamper:commitment".into(), m),
             ("tamper:participant-uses-wrong-seed".into(), m),
@@ -112,7 +122,43 @@ pub fn rand_pubkeys<C: Suite>(pk: &PublicKeyPackage<C>, alpha: Sc<C>) -> PublicK
     PublicKeyPackage::new(vs, VerifyingKey::new(pk.verifying_key().to_element() + a), pk.min_signers())
 }
 
+/// commitment sets of 2 and of 2 + 65536 + k entries under the same seed: different randomizers; a change in an entry far
+/// behind position 65536 changes the randomizer
+fn huge_set<C: Suite>(case: &Case, ctx: &mut Ctx) -> CheckResult {
+    let mut rng = Sm(case.seed ^ 0x4a6e);
+    let shape = Shape { n: 3, t: 2 };
+    let keys = make_keys::<C>(shape, case.ids, KeySource::Dealer, case.seed, "C17")?;
+    let signers: Vec<Id<C>> = keys.ids[..2].to_vec();
+    let (_, comms) = commit_all::<C>(&keys.kps, &signers, rng.next());
+    let vk = *keys.pubkeys.verifying_key();
+    let seed = rng.bytes(32);
+    ctx.eval("huge-commitment-set", true);
+    ctx.label("huge-commitment-set");
+    let regen = |cm: &BTreeMap<Id<C>, SigningCommitments<C>>| RandomizedParams::<C>::regenerate_from_seed_and_commitments(&vk, &seed, cm).ok().map(|p| p.randomizer().serialize());
+    let small = regen(&comms);
+    let filler = *comms.values().next().unwrap();
+    let mut big = comms.clone();
+    let extra = 65536u64 + rng.below(3);
+    for i in 0..extra {
+        // identifiers beyond the u16 range, all larger than the honest ones
+        let id = Id::<C>::new(sc_u64::<C>(70_000 + i)).map_err(|e| inconclusive(format!("{e:?}")))?;
+        big.insert(id, filler);
+    }
+    let large = regen(&big);
+    ensure!(ctx, small.is_some() && large.is_some(), "C17/regenerate-failed", "regenerate_from_seed_and_commitments failed (set of {} entries: {}, set of {} entries: {})", comms.len(), small.is_some(), big.len(), large.is_some());
+    ensure!(ctx, small != large, "C17/randomizer-ignores-commitments", "the same seed gives the same randomizer for a commitment set of {} entries and for that set plus {extra} further entries", comms.len());
+    // change one entry far behind the 65536-th
+    let last = *big.keys().next_back().unwrap();
+    let other = SigningCommitments::<C>::new(NonceCommitment::new(gen_::<C>() * sc_rand_nonzero::<C>(rng.next())), *filler.binding());
+    big.insert(last, other);
+    ensure!(ctx, regen(&big) != large, "C17/randomizer-ignores-commitments", "altering the last of {} commitment entries does not change the randomizer", big.len());
+    Ok(())
+}
+
 fn check<C: Suite>(case: &Case, ctx: &mut Ctx) -> CheckResult {
+    if case.mode == 200 {
+        return huge_set::<C>(case, ctx);
+    }
     let shape = Shape { n: case.shape.n.max(2), t: case.shape.t.clamp(2, case.shape.n.max(2)) };
     let keys = make_keys::<C>(shape, case.ids, case.source, case.seed, "C17")?;
     let sub = make_subset(shape.n as usize, shape.t as usize, case.subset);
